@@ -66,7 +66,7 @@ Expand ==
   /\ \E S \in Pick(work) :
        LET outs == {<<l, EClose(MoveL(S, l))>> : l \in Labels(S)}
            tos == {o[2] : o \in outs} IN
-       /\ delta' = delta \cup {<<S, o[1], o[2]>> : o \in outs}
+       /\ delta' = delta @@ (S :> outs)
        /\ seen' = seen \cup tos
        /\ work' = (work \ {S}) \cup (tos \ seen)
   /\ UNCHANGED <<jid, phase, part>>
@@ -82,15 +82,15 @@ StartRefine ==
   /\ UNCHANGED <<jid, seen, work, delta>>
 
 ClassOf(P, S) == CHOOSE G \in P : S \in G
-To(S, l) == LET ts == {t \in delta : t[1] = S /\ t[2] = l} IN IF ts = {} THEN {} ELSE (CHOOSE t \in ts : TRUE)[3]
-ToClass(P, S, l) == LET t == To(S, l) IN IF t = {} THEN {} ELSE ClassOf(P, t)
-
-Differs(P, G, f, s) ==
-  \/ \E l \in UNION {Labels(x) : x \in G} : ToClass(P, f, l) # ToClass(P, s, l)
-  \/ NGm(f) # NGm(s)
-  \/ (Acc(f) /\ AccSet(f) # AccSet(s))
-Moved(P, G, f) == {s \in G \ {f} : Differs(P, G, f, s)}
-CanSplit(P) == {gf \in UNION {{<<G, f>> : f \in G} : G \in P} : Moved(P, gf[1], gf[2]) # {}}
+\* what subPartition compares between `first' and another member of its group: the group reached on every input
+\* (none = no transition), the non-greedy mark, and -- for accepting states -- the set of accepting NFA states
+SplitSig(P, S) == <<{<<o[1], ClassOf(P, o[2])>> : o \in delta[S]}, NGm(S), IF Acc(S) THEN AccSet(S) ELSE {}>>
+Moved(P, G, f) == LET sf == SplitSig(P, f) IN {s \in G \ {f} : SplitSig(P, s) # sf}
+Rep(G) == CHOOSE x \in G : TRUE
+\* differing from `first' is differing in SplitSig, an equivalence: whether a group can be split does not depend on the
+\* member taken as `first' (what moves does), so the Det run looks at one representative per group
+CanSplit(P) == IF Det THEN {<<G, Rep(G)>> : G \in {G \in P : Cardinality(G) > 1 /\ Moved(P, G, Rep(G)) # {}}}
+               ELSE {gf \in UNION {{<<G, f>> : f \in G} : G \in P} : Moved(P, gf[1], gf[2]) # {}}
 
 Split ==
   /\ phase = "refine"
@@ -108,7 +108,7 @@ ObsIdx(d, a) == LET tr == D[d].trans
                     ks == {k \in DOMAIN tr : tr[k][1] <= a /\ a <= tr[k][2]}
                 IN IF ks = {} THEN 0 ELSE CHOOSE k \in ks : TRUE
 ObsTo(d, a) == LET k == ObsIdx(d, a) IN IF k = 0 THEN 0 ELSE D[d].trans[k][3]
-ClassEdges(G) == {<<t[2], ClassOf(part, t[3])>> : t \in {t \in delta : t[1] \in G}}
+ClassEdges(G) == UNION {{<<o[1], ClassOf(part, o[2])>> : o \in delta[S]} : S \in G}
 
 RECURSIVE Pairs(_)
 Pairs(P) ==
@@ -153,7 +153,7 @@ Compare ==
 
 Init == /\ jid \in 1..Len(Jobs) /\ phase = "subset"
         /\ seen = {Start}
-        /\ work = seen /\ delta = {} /\ part = {}
+        /\ work = seen /\ delta = [x \in {} |-> {}] /\ part = {}
 Next == Expand \/ StartRefine \/ Split \/ Compare
 SpecSafe == Init /\ [][Next]_vars
 Spec == SpecSafe /\ WF_vars(Next)
